@@ -81,7 +81,7 @@ def make_setting(kind, n_rep=2, seed_data=777, seed_qop=888):
         # the loss-minimisation case comes FIRST and uses data-dependent (inverse covariance) weights: whatever it does to the
         # shared empirical distributions is seen by the cases after it in a serial run and not in a parallel one
         estimators=[LossMinimizationEstimator(), LinearEstimator(), ProjectedLinearEstimator(mode_proj_order="eq_ineq")],
-        eps_proj_physical_list=[1e-5] * 3, eps_truncate_imaginary_part_list=[1e-5] * 3,
+        eps_proj_physical_list=[1e-5] * 3, eps_truncate_imaginary_part_list=[1e-3] * 3,     # deliberately unequal
         algo_list=[(PGDB(), po), (None, None), (None, None)],
         loss_list=[(SE(), SEO(os.environ.get("C15_LSQ_MODE", "inverse_sample_covariance"))), (None, None), (None, None)],
         parametrizations=[True, True, True], c_sys=c)
@@ -187,7 +187,7 @@ def guards(summary):
     g = []
     info = summary["info"]
     for k in ("schedules_executed", "schedules_with_deviation", "parallel_calls_seen", "repetition_pairs_compared", "re_estimates_compared",
-              "depolarized_checked", "depolarized_nonunital_bases", "stored_empi_dists_with_zero_count", "lindbladian_generated", "physicality_verdict_true", "physicality_verdict_false", "real_joblib_compared"):
+              "depolarized_checked", "depolarized_nonunital_bases", "depolarized_repeated_generate", "stored_empi_dists_with_zero_count", "lindbladian_generated", "physicality_verdict_true", "physicality_verdict_false", "real_joblib_compared"):
         if info.get(k, 0) < 1:
             g.append("never seen: " + k)
     return g
@@ -548,6 +548,32 @@ def ex_depol(p, seed):
         for pr in (0.0, 1e-3, 0.5, 1.0):
             ok, obj = A.call(lambda: DS(c, base, pr).generate())
             out.ops += 1
+            # the same setting object generates again (the flow does so once per sample): same object every time, base untouched
+            ok_s, setting = A.call(DS, c, base, pr)
+            if ok and ok_s:
+                base_snap = np.array(setting.qoperation_base.to_stacked_vector(), dtype=float).copy()
+                caller_snap = None if isinstance(base, tuple) else np.array(base.to_stacked_vector(), dtype=float).copy()
+                first = None
+                for rep in range(3):
+                    okr, o = A.call(setting.generate)
+                    out.ops += 1
+                    sv = np.array(o.to_stacked_vector(), dtype=float) if okr else None
+                    if not okr:
+                        out.fail("depolarized:%s:%s:repeated-generate:raises" % (typ, systag), "%r p=%g use %d: %s" % (base, pr, rep + 1, A.fmt_exc(o)))
+                        break
+                    if first is None:
+                        first = sv.copy()
+                        if np.abs(first - np.array(obj.to_stacked_vector(), dtype=float)).max() > 1e-12:
+                            out.fail("depolarized:%s:%s:repeated-generate:first-use-differs-from-fresh-setting" % (typ, systag), "%r p=%g" % (base, pr))
+                    elif np.abs(sv - first).max() > 1e-12:
+                        out.fail("depolarized:%s:%s:repeated-generate:use-%d-differs-from-first" % (typ, systag, rep + 1),
+                                 "%r p=%g: max difference %.3g between the objects generated by one setting" % (base, pr, np.abs(sv - first).max()))
+                        break
+                out.count("depolarized_repeated_generate")
+                if np.abs(np.array(setting.qoperation_base.to_stacked_vector(), dtype=float) - base_snap).max() > 0:
+                    out.fail("depolarized:%s:%s:generate-modifies-its-base-object" % (typ, systag), "%r p=%g" % (base, pr))
+                if caller_snap is not None and np.abs(np.array(base.to_stacked_vector(), dtype=float) - caller_snap).max() > 0:
+                    out.fail("depolarized:%s:%s:generate-modifies-the-callers-object" % (typ, systag), "p=%g" % pr)
             site = "depolarized:%s:%s:%s" % (typ, systag, "named-base" if isinstance(base, tuple) else "generic-base-object")
             if not ok:
                 out.fail(site + ":raises", "%r p=%g: %s" % (base, pr, A.fmt_exc(obj)))
